@@ -5,6 +5,8 @@
                                   -> ok <hex of the XML produced> | err <code>
      x <textual 0|1> <anon 0|1> <hexxml>   wbxml_conv_xml2wbxml_run
                                   -> ok <hex of the WBXML produced> | err <code>
+     r <forced> <meta> <hexdoc1> <hexdoc2>   ONE parser object parses doc1, then doc2 (reuse)
+                                  -> <answer for doc1> ; <answer for doc2>   (each as for w)
      m                            -> number of main-table entries before langID == UNKNOWN, and before publicID == NULL */
 #include "vh.h"
 #include "wbxml.h"
@@ -34,6 +36,22 @@ int main(void) {
             if (got_called) printf("ok %d %d\n", got_lang, got_charset);
             else printf("err %d\n", (int) r);
             wbxml_parser_destroy(p); free(doc);
+        } else if (tok[0][0] == 'r' && n == 5) {
+            WBXMLParser *p = wbxml_parser_create();
+            WBXMLContentHandler h = { start_doc, NULL, NULL, NULL, NULL, NULL };
+            int k;
+            wbxml_parser_set_content_handler(p, &h);
+            wbxml_parser_set_language(p, (WBXMLLanguage) strtoul(tok[1], NULL, 10));
+            wbxml_parser_set_meta_charset(p, (WBXMLCharsetMIBEnum) atoi(tok[2]));
+            for (k = 0; k < 2; k++) {
+                size_t len; unsigned char *doc = vh_unhex(tok[3 + k], &len); WBXMLError r;
+                got_called = 0; got_lang = -1; got_charset = 0;
+                r = wbxml_parser_parse(p, doc, (WB_ULONG) len);
+                if (got_called) printf("ok %d %d", got_lang, got_charset); else printf("err %d", (int) r);
+                fputs(k == 0 ? " ; " : "\n", stdout);
+                free(doc);
+            }
+            wbxml_parser_destroy(p);
         } else if (tok[0][0] == 'W' && n == 3) {
             size_t len; unsigned char *doc = vh_unhex(tok[2], &len);
             WBXMLConvWBXML2XML *c = NULL; WB_UTINY *xml = NULL; WB_ULONG xl = 0; WBXMLError r;
